@@ -176,8 +176,9 @@ def listing_eval(ctx, R, lst):
         ctx.holds("D5", "%s: the active script of %d sample listings is the one whose quoted name is followed by ACTIVE" % (lst.qualname, decided))
         return True
     sample, got, want, p = first_bad
-    rule = "D5" if isinstance(got, tuple) and isinstance(want, tuple) and got[0] != want[0] and sorted(filter(None, [got[0]] + got[1])) == sorted(
-        filter(None, [want[0]] + want[1])) else "D2"
+    # the names themselves are right and only the choice of the active one differs, or a name was taken for / with the marker: D5
+    rule = "D5" if isinstance(got, tuple) and isinstance(want, tuple) and got[0] != want[0] and (
+        set(filter(None, [got[0]] + list(got[1]))) <= set(filter(None, [want[0]] + list(want[1])))) else "D2"
     ctx.violation(rule, lst, "model:listing", "the listing %r is decoded as %r; it says %r" % (sample, got, want), node=p.node or lst.node,
                   witness="LISTSCRIPTS answered with %r" % sample)
     return True
